@@ -426,9 +426,13 @@ func TestWriterWire(t *testing.T) {
 		nmsg := rapid.IntRange(1, 4).Draw(t, "msgs")
 		hx.Eval()
 		for m := 0; m < nmsg; m++ {
-			if m > 0 || rapid.Bool().Draw(t, "resetop") {
+			// a Writer serves any number of messages of its opcode; ResetOp is only needed to change it
+			if rapid.Bool().Draw(t, "resetop") {
 				op = rapid.SampledFrom(ops).Draw(t, "op")
 				w.ResetOp(op)
+				hx.Class("writer/next-message=after-ResetOp")
+			} else if m > 0 {
+				hx.Class("writer/next-message=same-writer-no-ResetOp")
 			}
 			flag := rapid.Bool().Draw(t, "compressed")
 			ms.SetCompressed(flag)
@@ -855,10 +859,20 @@ func TestEndToEnd(t *testing.T) {
 			}
 			ctlSent = append(ctlSent, append([]byte{byte(op)}, p...))
 		}
+		curOp := ws.OpBinary // opcode the writer was built with
 		for m := 0; m < nmsg; m++ {
 			msg := e2eMsg{Op: rapid.SampledFrom([]ws.OpCode{ws.OpText, ws.OpBinary}).Draw(t, "op"),
 				Compressed: rapid.IntRange(0, 2).Draw(t, "compressed") != 0,
 				Level:      rapid.SampledFrom(levels).Draw(t, "level")}
+			if rapid.Bool().Draw(t, "keep-writer-op") {
+				msg.Op = curOp // next message on the same writer without ResetOp
+				if m > 0 {
+					hx.Class("e2e/next-message=same-writer-no-ResetOp")
+				}
+			} else {
+				wr.ResetOp(msg.Op)
+				curOp = msg.Op
+			}
 			msg.Payload, msg.Class = genMessagePayload(t, msg.Op == ws.OpText)
 			if msg.Class == "big" && bufSize != 0 && bufSize < 50 {
 				msg.Payload = msg.Payload[:len(msg.Payload)/16] // keep the frame count reasonable
@@ -867,7 +881,6 @@ func TestEndToEnd(t *testing.T) {
 			if !msg.Compressed && len(msg.Payload) == 0 {
 				msg.Payload = []byte("x") // whether an empty plain write makes a message is C06's open question
 			}
-			wr.ResetOp(msg.Op)
 			msW.SetCompressed(msg.Compressed)
 			var dst io.Writer = wr
 			if msg.Compressed {
